@@ -359,6 +359,39 @@ def check_rrblup(prog, rep):
                 else:
                     rep.unrec("R7-rrblup", g.qualname, "update written with other operators")
                 good = False
+        # termination: sweeps continue while ANY coordinate still moves by more than the tolerance; the previous iterate is a snapshot, not an alias
+        wl = [s for s in ast.walk(g.node) if isinstance(s, ast.While)]
+        if len(wl) != 1:
+            rep.unrec("R7-rrblup", g.qualname, "expected one convergence loop")
+            good = False
+        else:
+            test = wl[0].test
+            parts = test.values if isinstance(test, ast.BoolOp) and isinstance(test.op, ast.And) else [test]
+            conv = None
+            for pt in parts:
+                t = "".join(dump(pt).split())
+                m1 = [q for q in ("numpy.any(", "numpy.max(", "numpy.amax(", "numpy.linalg.norm(") if t.startswith(q)]
+                if t.startswith("numpy.all(") and ">" in t:
+                    conv = ("all", pt)
+                elif m1 and ">" in t and "<" not in t.replace("<=", ""):
+                    conv = ("any", pt)
+                elif (".max()>" in t or ".any()" in t) and ">" in t:
+                    conv = ("any", pt)
+                elif t.startswith("notnumpy.all(") and ("<=" in t or "<" in t):
+                    conv = ("any", pt)
+            if conv is None:
+                rep.unrec("R7-rrblup", g.qualname, "convergence test %s" % dump(test)[:60])
+                good = False
+            elif conv[0] == "all":
+                rep.violate("R7-rrblup", g.qualname, "the sweeps continue only while ALL coordinates still move (%s): the solver stops as soon as one coordinate is stationary, "
+                            "before the others have converged" % dump(conv[1])[:50], where(g, conv[1]), "numpy.any(change > atol)", dump(conv[1])[:50])
+                good = False
+            snap = [s for s in wl[0].body if isinstance(s, ast.Assign) and isinstance(s.value, ast.Name) and dump(s.value) == (dump(upd[0].targets[0].value) if len(upd) == 1 else "?")]
+            for sst in snap:
+                if isinstance(sst.targets[0], ast.Name):
+                    rep.violate("R7-rrblup", g.qualname, "`%s` aliases the current iterate instead of copying it: the measured change is always 0 and the solver stops after one sweep"
+                                % dump(sst), where(g, sst), "%s[:] = %s" % (dump(sst.targets[0]), dump(sst.value)), dump(sst))
+                    good = False
     # fit_numpy: complementary masks
     K = prog.get_class("rrBLUPModel0", GM + "rrBLUPModel0")
     fn = K.methods.get("fit_numpy")
